@@ -140,4 +140,21 @@ CHECKS = {
               "property text. 6 failing input classes were repaired in /repo (two fix commits), 9 remain as known findings."),
         note="bounded: stated class-table family; random choices enumerated exhaustively per query up to a path budget; 9 known findings (generic classes re-instantiated by the irrelevant-type search, open queries, dependent bounds)",
         design='DESIGN.md section 4 (C09)'),
+    'C08': dict(
+        level='proof',
+        technique='deductive verification in slice mode of the instantiation helpers (site obligations at the only place that creates a use-site projection, at t_args.append and at the call forwarding the variance choices; _get_type_arg_variance fully under contract) with z3; bounded run-time evaluation of the bound / arity / kept-request clauses',
+        text=("Proved for every declaration, pool, pre-assignment and variance-choice map: the only WildCardType(...) in "
+              "_compute_type_variable_assignments is built with a variance that _get_type_arg_variance allowed at that moment -- "
+              "never invariant, never when cfg.dis.use_site_variance, never contravariant when cfg.dis.use_site_contravariance, "
+              "only with the caller's variance choices present and permitting it, compatible with the declared variance, the "
+              "index still designating the current parameter, and never when a later parameter's bound mentions it; no appended "
+              "argument is an uninstantiated generic class; instantiate_type_constructor forwards disable_variance / the "
+              "Function* rule as choices that forbid every projection; _get_available_types filters and boxes. The clauses that "
+              "depend on the subtype search (argument within the substituted bound, one argument per parameter, requested "
+              "assignments kept) are bounded only: 1 defect repaired (shadowed loop index, found by the proof obligation), 6 "
+              "input classes recorded as known findings."),
+        note=("trusted: slice-mode havoc of the statements outside the subset (listed in evidence), TypeParameter.has_bound_of, "
+              "random.choice, immutability of cfg and Variance constants; bound / kept / arity clauses are bounded (synthetic "
+              "declarations up to 4 parameters x pools x requests x variance maps + generator calls for a seed list)"),
+        design='DESIGN.md section 4 (C08), 2.7'),
 }
